@@ -24,6 +24,7 @@ def run(ctx, rep):
         filters(prog, rep, tag)
         slotfsm.s4(prog, rep, "C05", tag, parts=("receive_frame",))
         claim(prog, rep, tag)
+        awaiting_only(prog, rep, tag)
 
 
 def filters(prog, rep, tag):
@@ -95,3 +96,31 @@ def claim(prog, rep, tag):
             if (c.decl_s or "").endswith(("::store", "::compare_exchange", "::swap", "::fetch_add")):
                 bad.append(n)
     rep.ob(P, "lookup-only-loads" + tag, not bad, "the index lookup only loads (calls: first_pdu_is, is_awaiting_response); %s" % bad, loc=lk.span, how="inventory")
+
+
+def awaiting_only(prog, rep, tag):
+    """A frame is accepted only into a slot whose request is awaiting a response: the only
+    transition into RxBusy is the compare-exchange from Sent, and the lookup itself only returns
+    slots in state Sent."""
+    P = "C05.awaiting"
+    sites, problems = slotfsm.transitions(prog)
+    rep.floor("C05 state-change sites" + tag, len(sites), 13)
+    into = sorted((s["fn"], s["kind"], s["frm"], s["to"]) for s in sites if s["to"] == "RxBusy")
+    ok = into == [("FrameElement::claim_receiving", "cas", "Sent", "RxBusy")] and not [p_ for p_ in problems if "claim_receiving" in p_[0].root_short]
+    rep.ob(P, "rxbusy-only-from-sent" + tag, ok, "the receive side can enter a slot only by compare-exchange Sent -> RxBusy (transitions into RxBusy: %s)" % into, how="table")
+    lk = prog.body("PduStorageRef::frame_index_by_first_pdu_index")
+    somes = q.aggregates(lk, "Option", "Some")
+    aware = bool(somes)
+    for bi, si, s in somes:
+        implied = q.implied_true_calls(lk, bi)
+        a = False
+        for c in implied:
+            t = prog.by_path.get(c.full)
+            if t is not None and slotfsm._tests_sent(t):
+                a = True
+        aware = aware and a and any(c.is_("FrameElement::first_pdu_is") for c in implied)
+    rep.ob(P, "lookup-sent-only" + tag, aware, "the index lookup returns a slot only if its marker matches and its state is exactly Sent", loc=lk.span)
+    # claim_receiving's failure is propagated as an error by receive_frame (no fallback path)
+    rf = prog.body("PduRx::receive_frame")
+    cl = rf.calls_to("PduStorageRef::claim_receiving")
+    rep.ob(P, "single-claim" + tag, len(cl) == 1, "receive_frame makes exactly one claim attempt per frame", loc=rf.span, how="inventory", nontrivial=False)
